@@ -8,6 +8,7 @@ from .. import bits, fields
 from ..core import call_attr, calls_in, const, dotted, is_const, kwarg, norm, slice_parts, text, walk_local
 
 EXPLANATION = [
+    'C01.decorator-order: every HCI packet class that is a dataclass and is registered by a decorator is made a dataclass first (innermost decorator), so the registration decorator sees its fields and builds the field table.',
     'C01.zero-valid: fields declared `int | None` in the anchored modules are tested for presence with `is None` / `is not None`, never by truthiness, so 0 (sequence number 0, time stamp 0, length 0) is handled like any other value.',
     'C01.signed-names: every HCI field named *rssi* or *tx_power* is declared with a signed spec (they are signed octets in the specification).',
     'C01.family-registries: every sub-event family (LE Meta, vendor) owns its dispatch table, so an unknown sub-event of one family can never be parsed as a class of another; every from_parameters factory that rebuilds an object from its fields also keeps the received parameter bytes.',
@@ -158,6 +159,18 @@ def codec_arms(ctx):
 def enum_spec(ctx):
     R, p = ctx.r, ctx.p
     rule = 'C01.enum-spec'
+    # the enum bases of flag / enum typed fields keep every received bit: no `boundary=` other than KEEP (IntFlag's default),
+    # and the open enum base accepts unknown values
+    for q in (f'{H}.SpecableEnum', f'{H}.SpecableFlag'):
+        ci = p.cls(q)
+        if ci is None:
+            R.bad(rule, q, 'anchor missing')
+            continue
+        kws = {k.arg: text(k.value).split('.')[-1] for k in ci.node.keywords}
+        bases = [text(b).split('.')[-1] for b in ci.node.bases]
+        ok = kws.get('boundary', 'KEEP') == 'KEEP' and (bases == ['IntFlag'] if q.endswith('Flag') else bases == ['OpenIntEnum'])
+        R.check(ok, rule, f'{q} | keeps unknown bits', f'bases {bases}, boundary {kws.get("boundary", "default (KEEP)")}: a received value with undefined bits / an undefined code is kept as it is',
+                f'{q} is declared with bases {bases} and {kws}: values with bits (or codes) that have no named member are altered or rejected when a field is parsed, so a packet does not parse back to the values it was built from', p.loc(ci.node))
     for q in (f'{H}.SpecableEnum', f'{H}.SpecableFlag'):
         fn = p.find(f'{q}.type_spec')
         if fn is None:
@@ -609,7 +622,13 @@ def zero_valid_rule(ctx):
     zero_valid(ctx, 'C01.zero-valid', ['bumble.hci'])
 
 
+def decorator_order_rule(ctx):
+    from .. import generic_rules as g
+    g.decorator_order(ctx, 'C01.decorator-order', ['bumble.hci'])
+
+
 RULES = [
+    ('C01.decorator-order', decorator_order_rule),
     ('C01.zero-valid', zero_valid_rule),
     ('C01.signed-names', signed_names),
     ('C01.family-registries', family_registries),
